@@ -25,8 +25,8 @@ def perturbation_cfg(P, h, kind, cpu, eintr=True):
     cfg = P.cfg
     cfg["cpu"] = cpu
     cfg["hookseed"] = 1 + h[5] + 256 * h[6]
-    if kind == "F1":
-        cfg["mode"] = e3.MODE["F1"]
+    if kind in ("F1", "P1"):
+        cfg["mode"] = e3.MODE[kind]
         strat = h[0] % 4
         if strat in (0, 1):
             cfg["strat"] = 0
@@ -45,7 +45,7 @@ def perturbation_cfg(P, h, kind, cpu, eintr=True):
         cfg["strat"] = 0
         cfg["p"] = [2, 10, 50, 150][h[1] % 4]
         cfg["hyield"] = [0, 20, 100][h[4] % 3]
-    if os.environ.get("VERIF_FORCE_MODE") and kind == "F1":      # triage aid: run the single-CPU workers as pinned CFS (mode 2) instead of SCHED_FIFO
+    if os.environ.get("VERIF_FORCE_MODE") and kind in ("F1", "P1"):      # triage aid: run the single-CPU workers as pinned CFS (mode 2) instead of SCHED_FIFO
         cfg["mode"] = int(os.environ["VERIF_FORCE_MODE"])
     P.cfg_active_cpus = [1, 2, 4, 16][h[7] % 4]
     # EINTR injection (dvm executor): client threads are interrupted by a handled, non-SA_RESTART signal every <sigint> us
@@ -53,7 +53,7 @@ def perturbation_cfg(P, h, kind, cpu, eintr=True):
     if si and eintr:
         cfg["sigint"] = si
         P.features.add("eintr-injection")
-    P.features.add("mode=%s" % ("F1" if kind == "F1" else ("N" if cfg["mode"] == 0 else "MC")))
+    P.features.add("mode=%s" % (kind if kind in ("F1", "P1") else ("N" if cfg["mode"] == 0 else "MC")))
     P.features.add("strat=%d" % cfg.get("strat", 0))
     P.features.add("active_cpus=%d" % P.cfg_active_cpus)
 
